@@ -44,8 +44,17 @@ def observe_sampled(mins, maxs, seed):
             "idx": [int(x) for x in np.asarray(idx).reshape(-1)]}
 
 
-def observe(mins, maxs):
-    space, index_fn = create_range_space(jnp.array(mins), jnp.array(maxs))
+def as_bounds(v, how):
+    """The caller's bounds in several array forms: jax int32 (default), Python list, numpy of a narrow integer type."""
+    if how in (None, "jnp"):
+        return jnp.array(v)
+    if how == "list":
+        return list(v)
+    return np.array(v, dtype={"i8": np.int8, "u8": np.uint8, "i16": np.int16, "u16": np.uint16, "i64": np.int64}[how])
+
+
+def observe(mins, maxs, how=None):
+    space, index_fn = create_range_space(as_bounds(mins, how), as_bounds(maxs, how))
     queries = list(itertools.product(*[range(lo - 1, hi + 2) for lo, hi in zip(mins, maxs)]))
     q = jnp.array(np.array(queries, dtype=np.int32).reshape(len(queries), len(mins)))
     idx = jax.vmap(index_fn)(q)
@@ -58,7 +67,8 @@ def observe(mins, maxs):
 
 def main():
     req = json.load(sys.stdin)
-    out = [observe_sampled(b[0], b[1], b[2]) if len(b) > 2 else observe(b[0], b[1]) for b in req["boxes"]]
+    out = [observe_sampled(b[0], b[1], b[2]) if len(b) > 2 and not isinstance(b[2], str)
+           else observe(b[0], b[1], b[2] if len(b) > 2 else None) for b in req["boxes"]]
     json.dump(out, open(req["out"], "w"))
 
 
